@@ -1109,6 +1109,19 @@ func c07Decorator(c *Check, P string) {
 				if site == nil {
 					continue
 				}
+				// Close may be called twice (the router closes a handler's subscriber, the user closes the Pub/Sub): the signal is
+				// closed through a sync.Once, or behind the test of a flag of the decorator
+				okOnce := f != cls
+				if f == cls {
+					for _, t := range Tests(cls) {
+						if t.Y == nil && t.Op == token.ILLEGAL {
+							if fl := LoadedField(firstOrigin(t.X)); fl != nil && fl.Type().String() == "bool" && (GuardedBy(cls, cl, []Edge{t.False}) || GuardedBy(cls, cl, []Edge{t.True})) {
+								okOnce = true
+							}
+						}
+					}
+				}
+				c.Report(okOnce, P+".O7", "DECORATOR-SIGNAL-CLOSED-ONCE", cls, site.Pos(), "close of the decorator's closing signal", "the decorator's closing signal is closed at most once however often Close is called (sync.Once, or a flag tested before): a second Close must not panic")
 				ok := true
 				for _, w := range waits {
 					if !Dominates(cls, site, w) {
